@@ -64,6 +64,8 @@ class AGen:
     def special_leaf(self, cplx):
         r = self.rnd
         kind = r.choice(["psd", "sa", "unitary", "stiefel", "plain", "ident", "perm", "scal"])
+        if cplx and r.random() < 0.06:
+            return T.near_real_tree(self.gen, r)      # almost-real complex payloads (not Hermitian): tolerance-based inference must not fire
         dt = self.gen.dt(cplx)
         n = r.randint(1, 3)
         if kind == "psd":
@@ -512,7 +514,7 @@ def run(ctx):
         if m * k > 300 or m == 0 or k == 0:
             continue
         D = T.dense(t)
-        if np.abs(D).max() > 2 ** 20:
+        if np.abs(D).max() > (2 ** 45 if set(O.leaf_dts(t)) <= {"float64", "complex128", "int64"} else 2 ** 20):
             continue
         cases.append(dict(an=an, tree=t))
     obs = []
